@@ -118,6 +118,18 @@ theorem c14_uc_not_subpolicy (E : Env) (n : Nat) (subs : List Policy) (c : Unloc
 
 example : revealed [Policy.above 1, .opaque .empty, .hash .empty] = 2 := by decide
 
+/-- 2-of-3 with one branch opaque: accepted; the same witnesses with the third branch revealed
+    too (an `n+1`-th revealed child): "threshold exceeded"; with only one revealed: "not reached";
+    an unlock-conditions child: rejected as such -/
+example :
+    let E : Env := { height := 10, median := 100, sigHash := ⟨#[7]⟩, verifySig := fun k _ s => k == s, sha := id }
+    verify E (.thresh 2 [.pk ⟨#[1]⟩, .opaque ⟨#[9]⟩, .above 3]) [⟨#[1]⟩] [] = .ok () ∧
+    verify E (.thresh 2 [.pk ⟨#[1]⟩, .above 2, .above 3]) [⟨#[1]⟩] [] = .error .exceeded ∧
+    verify E (.thresh 2 [.pk ⟨#[1]⟩, .opaque ⟨#[9]⟩, .opaque ⟨#[8]⟩]) [⟨#[1]⟩] [] = .error .notReached ∧
+    verify E (.thresh 0 [.uc ⟨0, [], 0⟩]) [] [] = .error .ucSub ∧
+    verify E (.uc ⟨0, [], 0⟩) [] [] = .ok () := by
+  refine ⟨by rfl, by rfl, by rfl, by rfl, by rfl⟩
+
 /-! ## Complexity limits; totality -/
 
 /-- More than `maxPolicies` (1024) sub-policies in total, or a threshold with more than
@@ -320,6 +332,12 @@ theorem c14_standard_address (H : ByteArray → ByteArray) (pk : ByteArray) :
   · intro hs
     simp [standardUnlockHash, addressWith, ucRoot, merkleRoot, accAdd, accRoot, leafHash, nodeHash,
       encUnlockKey, hs, ByteArray.append_assoc]
+
+/-- instance with the real BLAKE2b-256 and a concrete 32-byte key -/
+example :
+    standardUnlockHash blake2b256 (leafHash blake2b256 (le64 0)) (leafHash blake2b256 (le64 1)) (Bytes.zeros 32)
+      = address (.uc ⟨0, [⟨specEd25519, Bytes.zeros 32⟩], 1⟩) :=
+  (c14_standard_address blake2b256 (Bytes.zeros 32)).2 (by decide)
 
 /-- the two precomputed constants in `StandardUnlockHash` (read from hash.go by the extractor)
     ARE the BLAKE2b-256 leaf hashes of `uint64(0)` and `uint64(1)` — evaluated in the kernel
